@@ -13,7 +13,8 @@ MAP = {"RK4Iterator evaluates": "C06", "TemperatureParameters constructor": "C13
        "site-type limit is rejected": "C14", "reaches the precipitates also after": "C14",
        "discards the composition sets cached by the previous method": "C09", "only reused for the same local sampling conditions": "C09",
        "does not fall back to an earlier query": "C09",
-       "carry the J factor like their edge and screw forms": "C18", "finds the file saveRecordedPSD wrote": "C20"}
+       "carry the J factor like their edge and screw forms": "C18", "finds the file saveRecordedPSD wrote": "C20",
+       "before the matrix stiffness keeps the chosen precipitate shape": "C16"}
 log = subprocess.run("git -C /repo log --format='%h %s' --grep='^fix:'", shell=True, capture_output=True, text=True).stdout.strip().splitlines()
 todo = []
 for l in log:
